@@ -115,14 +115,6 @@ func (k Keeper) InitGenesis(ctx sdk.Context, state *types.GenesisState) []abci.V
 		if state.ProviderChannelId != "" {
 			// set provider channel ID
 			k.SetProviderChannel(ctx, state.ProviderChannelId)
-			// set outstanding downtime slashing requests
-			for _, od := range state.OutstandingDowntimeSlashing {
-				consAddr, err := sdk.ConsAddressFromBech32(od.ValidatorConsensusAddress)
-				if err != nil {
-					panic(err)
-				}
-				k.SetOutstandingDowntime(ctx, consAddr)
-			}
 
 			// set last transmission block height
 			k.SetLastTransmissionBlockHeight(ctx, state.LastTransmissionBlockHeight)
@@ -150,6 +142,19 @@ func (k Keeper) InitGenesis(ctx sdk.Context, state *types.GenesisState) []abci.V
 
 	// populate cross chain validators states with initial valset
 	k.ApplyCCValidatorChanges(ctx, state.Provider.InitialValSet)
+
+	// set outstanding downtime slashing requests of a chain that restarts with the CCV channel established;
+	// this is done only now because ApplyCCValidatorChanges clears the flag of every validator it creates
+	if !state.NewChain && state.ProviderChannelId != "" {
+		for _, od := range state.OutstandingDowntimeSlashing {
+			consAddr, err := sdk.ConsAddressFromBech32(od.ValidatorConsensusAddress)
+			if err != nil {
+				panic(err)
+			}
+			k.SetOutstandingDowntime(ctx, consAddr)
+		}
+	}
+
 	return state.Provider.InitialValSet
 }
 
